@@ -77,3 +77,9 @@ package clickhouse_transpiler
 //@   ensures new-term-gets-the-next-bit: exp != nil && exp.ComplexHead == nil && exp.Head != nil && exp.Tail == nil && old(p.terms[exp.Head.String()]) == 0 ==> result != nil && result.simpleIdx == old(len(p.termIdx)) && len(p.termIdx) == old(len(p.termIdx)) + 1 && p.termIdx[result.simpleIdx] == exp.Head && p.terms[exp.Head.String()] == result.simpleIdx + 1
 //@   ensures term-list-grows-in-place-or-moves: aliases(p.termIdx, old(p.termIdx)) || fresh(p.termIdx)
 //@   ensures inner-node: exp != nil && exp.Tail != nil ==> result != nil && result.simpleIdx == -1 && result.op == exp.AndOr && len(result.complex) == 2
+
+// The aggregate threshold of `| avg(duration) > 5ms` is what its literal denotes,
+// on every execution of the plan: nothing of an earlier execution is carried over.
+//@ func (*AggregatorPlanner).cmpVal [C14]
+//@   modifies a.fCmpVal
+//@   check duration-threshold-is-the-literal: result == nil && a.Attr == "duration" ==> a.fCmpVal == real(cmpDuration)
